@@ -186,7 +186,7 @@ def show(pl):
     return [dict(first=p.first, von=p.von, last=p.last, jr=p.jr) if isinstance(p, NameParts) else repr(p) for p in pl]
 
 
-LIST_SEPS = [" and ", "\nand ", " AND\n", "\tand\t"]
+LIST_SEPS = [" and ", "\nand ", " AND\n", "\tand\t", " and\r\n    ", "\rAnd "]  # (CR, alone and in CRLF, is white space like LF)
 
 
 def check_value(names, acc, do_stack=True, case=None, sep=" and "):
